@@ -241,14 +241,27 @@ Definition sem_step (mode : N) (h : hub) (o : op) : hub * list out :=
 
 (* first step at which model and implementation differ: (index, what) with
    what = 1 observations, 100 + k digest part k *)
+(* The driver's way of saying "from now on the server's writes to connection c fail, while it still
+   believes the client connected" (it shut the write half of the server's socket): an OConnect for a
+   connection that exists, which is a no-op of the model. The model has no such state; from that op on
+   a case is judged by the trace predicates only (they treat the session as disconnected for delivery:
+   what is addressed to it must be queued and delivered, in order, by the next resume). *)
+Definition is_wfail (h : hub) (o : op) : option N :=
+  match o with
+  | OConnect c _ => match aget h.(h_conns) c with Some _ => Some c | None => None end
+  | _ => None
+  end.
+
 Fixpoint first_diff (mode : N) (i : N) (h : hub) (tr : trace) : option (N * N) :=
   match tr with
   | [] => None
   | (o, ob, dg) :: r =>
+      match is_wfail h o with Some _ => None | None =>
       let '(h', outs) := sem_step mode h o in
       if negb (match o with OTick _ => obs_match_unordered ob outs | _ => obs_match ob outs end) then Some (i, 1)
       else if negb (digest_match dg (digest_of h')) then Some (i, 100 + digest_diff dg (digest_of h'))
       else first_diff mode (i + 1) h' r
+      end
   end.
 
 Definition compare_case (c : hcase) : list (N * N * N) :=
